@@ -68,6 +68,9 @@ class CompositeCovariance(CovarianceFunction):
         # check for consistency of length of bounds, labels
         self.n_params = sum(c.n_params for c in self.components)
         assert self.n_params == len(self.hyperpar_labels)
+        # (bounds assembled for another number of hyper-parameters are assembled afresh)
+        if self.bounds is not None and len(self.bounds) != self.n_params:
+            self.bounds = None
 
     def estimate_hyperpar_bounds(self, y: ndarray):
         """
@@ -515,6 +518,9 @@ class ChangePoint(CovarianceFunction):
         # store x-data from the dimension of the change-point
         self.x_cp = asarray(x, dtype=float)[:, self.axis]
         assert self.n_params == len(self.hyperpar_labels)
+        # (bounds assembled for another number of hyper-parameters are assembled afresh)
+        if self.bounds is not None and len(self.bounds) != self.n_params:
+            self.bounds = None
 
     def estimate_hyperpar_bounds(self, y: ndarray):
         xr = self.x_cp.min(), self.x_cp.max()
@@ -680,6 +686,10 @@ class HeteroscedasticNoise(CovarianceFunction):
             A[i, i] = 2.0
             self.dK.append(A)
         self.hyperpar_labels = [f"log_sigma_{i+1}" for i in range(self.n_params)]
+        # one hyper-parameter per data point: bounds held for another number of points
+        # (estimated when this object served a smaller data set) cannot apply to these
+        if self.bounds is not None and len(self.bounds) != self.n_params:
+            self.bounds = None
 
     def estimate_hyperpar_bounds(self, y: ndarray):
         """
